@@ -50,6 +50,8 @@ func init() {
 				Edits: []Edit{{File: "transport/standard.go", Old: "\terr = t.session.RequestSubsystem(\"netconf\")\n\n\treturn err", New: "\terr = t.session.Shell()\n\n\treturn err"}}},
 			{ID: "C16-close-waits-for-peer", Desc: "Standard.Close reaps the session before closing the client", Rule: "C16/close-no-wait",
 				Edits: []Edit{{File: "transport/standard.go", Old: "\t\tt.session = nil\n\t}\n\n\tif t.client != nil {", New: "\t\t_ = t.session.Wait()\n\n\t\tt.session = nil\n\t}\n\n\tif t.client != nil {"}}},
+			{ID: "C16-netconf-forced-tty", Desc: "the NETCONF flavour of the system transport starts ssh with -tt", Rule: "C16/no-remote-tty",
+				Edits: []Edit{{File: "transport/system.go", Old: "t.OpenArgs = append(t.OpenArgs, \"-s\", \"netconf\")", New: "t.OpenArgs = append(t.OpenArgs, \"-tt\", \"-s\", \"netconf\")"}}},
 			{ID: "C16-keepalive-only-without-config", Desc: "ServerAliveInterval passed only when no ssh config file is used", Rule: "C16/system-keepalive",
 				Edits: []Edit{{File: "transport/system.go", Old: "\t\t\"-o\",\n\t\tfmt.Sprintf(\"ServerAliveInterval=%d\", int(a.TimeoutSocket.Seconds())),\n\t}", New: "\t}"},
 					{File: "transport/system.go", Old: "\t\t\t\"-F\",\n\t\t\t\"/dev/null\",\n", New: "\t\t\t\"-F\",\n\t\t\t\"/dev/null\",\n\t\t\t\"-o\",\n\t\t\tfmt.Sprintf(\"ServerAliveInterval=%d\", int(a.TimeoutSocket.Seconds())),\n"}}},
@@ -81,6 +83,8 @@ func runC16(c *Ctx, r *Report) {
 	r.Rule("C16/wrapper", "the Transport wrapper forwards the configured read size, the same slice and the implementation's results", 3)
 	r.Rule("C16/lock-shape", "implementation reads hold the read lock; the forced close does not; the channel's timeout edge is the forced one", 3)
 	r.Rule("C16/close-no-wait", "Close of each built-in transport calls no wait-for-peer API (Wait, Read, io.Copy ...): closing is what releases a blocked read", 3)
+	r.Rule("C16/no-remote-tty", "the system transport starts ssh without -t / -tt / -e / RequestTTY / EscapeChar: the client never interprets the bytes of the session", 1)
+	checkNoRemoteTTY(c, r, "C16/no-remote-tty")
 	r.Rule("C16/system-keepalive", "every ssh argument list of the system transport passes -o ServerAliveInterval=<socket timeout>: the child's keepalive is what releases a pty read when the peer vanishes", 1)
 	r.Rule("C16/factory", "each transport name constructs its own implementation; the NETCONF flag selects the subsystem and nothing else", 6)
 
